@@ -28,22 +28,22 @@ IDENT_POOL = ['name', 'age', 'x', 'X', 'x1', 'x10', 'name2', 'Name', 'NAME', '_i
 RESERVED_DIRECT = {'NR', 'NF', 'NU', 'a', 'b', 'e', 'record_a', 'record_b', 'query_context', 'stop_flag', 'star_fields', 'out_fields', 'sort_key', 'key', 'udf', 'like', 'unnest', 'count', 'sum', 'min', 'max', 'avg', 'median', 'variance', 'array_agg', 'any_value', 'up_fields', 'join_matches', 'join_match', 'bNR', 'bNF', 'aNR', 'select_simple', 'select_unnested', 'safe_get', 'len', 'str', 'int', 'x'} | qast.PY_KEYWORDS
 
 
-def random_name(rng, allow_newline=False):
+def random_name(rng, allow_newline=False, allow_cr=False):
     r = rng.random()
     if r < 0.3:
         return rng.choice(IDENT_POOL)
     n = rng.choice([1, 2, 3, 4, 6, 9])
-    alpha = ALPHABET + (['\n'] if allow_newline else [])
+    alpha = ALPHABET + (['\n'] if allow_newline else []) + (['\r', '\r\n'] if allow_cr else [])
     return ''.join(rng.choice(alpha) for _ in range(n))
 
 
-def gen_header(rng, allow_newline=False):
+def gen_header(rng, allow_newline=False, allow_cr=False):
     n = rng.randrange(1, 6)
     names = []
     tries = 0
     while len(names) < n and tries < 100:
         tries += 1
-        nm = random_name(rng, allow_newline)
+        nm = random_name(rng, allow_newline, allow_cr)
         r = rng.random()
         if names and r < 0.25:
             base = rng.choice(names)
@@ -116,7 +116,7 @@ def leg_lists(ns, res, spec):
 
 def _leg_lists(ns, res, spec, rng, node, js_batch):
     for n in range(spec['n']):
-        names = gen_header(rng, allow_newline=True)
+        names = gen_header(rng, allow_newline=True, allow_cr=True)      # column-name lists can hold a carriage return (a CSV header line cannot)
         A = unique_table(len(names))
         res.count('headers')
         for col in range(len(names)):
@@ -219,7 +219,7 @@ def leg_pandas_sqlite(ns, res, spec):
     d = tempfile.mkdtemp(prefix='rv-c09-')
     try:
         for n in range(spec['n']):
-            names = gen_header(rng, allow_newline=True)
+            names = gen_header(rng, allow_newline=True, allow_cr=True)
             A = unique_table(len(names))
             # pandas
             df = pd.DataFrame(A, columns=names)
